@@ -1325,7 +1325,7 @@ def _sid_sizes(meta):
 def pair_alphabet(meta):
     """queries whose answers go through byte-order / size / format dependent parsing"""
     u0 = meta['units'][0]['off']
-    ops = [['TopDIE', u0], ['LineEntries', u0], ['CFI', 0], ['ESection', 2], ['ESymbol', 1]]
+    ops = [['TopDIE', u0], ['LineProg', u0], ['LineEntries', u0], ['CFI', 0], ['ESection', 2], ['ESymbol', 1]]
     if meta['has_ehcfi']:
         ops += [['CFI', 1]] + [['CFIDecoded', 1, i] for i, e in enumerate(meta['cfi_ents'][1]) if e[0] == 1][:1]
     return ops
